@@ -13,12 +13,14 @@ import (
 )
 
 type Client struct {
-	PC       *myproto.PacketConn
-	NC       net.Conn
-	Greeting myproto.Greeting
-	Caps     uint32
-	Status   uint16
-	Dead     bool // the connection failed at transport level
+	PC         *myproto.PacketConn
+	NC         net.Conn
+	Greeting   myproto.Greeting
+	Caps       uint32
+	Status     uint16
+	Dead       bool   // the connection failed at transport level
+	Switched   string // plugin named by an auth switch request ("" = none); SwitchSeen tells whether one arrived
+	SwitchSeen bool
 }
 
 type Result struct {
@@ -36,6 +38,12 @@ type Options struct {
 	Charset            byte
 	ExtraCaps          uint32
 	NoPluginAuth       bool
+	// MaskCaps drops CLIENT_PLUGIN_AUTH when the server does not advertise it (what real clients do).
+	MaskCaps bool
+	// AuthFn, when set, computes the auth response: stage 0 = handshake response, stage 1 = answer to an
+	// auth switch request; plugin is the method in effect (the one the client declared, or the one the
+	// server switched to), salt the server's 20 bytes.
+	AuthFn func(stage int, plugin string, salt []byte) []byte
 }
 
 var ErrTransport = errors.New("transport failure")
@@ -61,12 +69,18 @@ func Connect(nc net.Conn, o Options) (*Client, error) {
 	if o.DB != "" {
 		caps |= myproto.CConnectWithDB
 	}
-	if !o.NoPluginAuth {
+	if !o.NoPluginAuth && !(o.MaskCaps && g.Caps&myproto.CPluginAuth == 0) {
 		caps |= myproto.CPluginAuth
 	}
 	c.Caps = caps
 	auth := o.Auth
-	if auth == nil {
+	if o.AuthFn != nil {
+		salt := g.Salt
+		if len(salt) > 20 {
+			salt = salt[:20]
+		}
+		auth = o.AuthFn(0, o.Plugin, salt)
+	} else if auth == nil {
 		salt := g.Salt
 		if len(salt) > 20 {
 			salt = salt[:20]
@@ -86,6 +100,7 @@ func Connect(nc net.Conn, o Options) (*Client, error) {
 		c.Dead = true
 		return c, fmt.Errorf("%w: writing login: %v", ErrTransport, err)
 	}
+readReply:
 	pkt, err = c.PC.ReadPacket()
 	if err != nil {
 		c.Dead = true
@@ -95,6 +110,42 @@ func Connect(nc net.Conn, o Options) (*Client, error) {
 		return c, errors.New("empty login reply")
 	}
 	switch pkt[0] {
+	case 0xfe:
+		// auth switch request: plugin name NUL salt [NUL]
+		if c.SwitchSeen {
+			return c, errors.New("second auth switch request")
+		}
+		c.SwitchSeen = true
+		rest := pkt[1:]
+		i := 0
+		for i < len(rest) && rest[i] != 0 {
+			i++
+		}
+		c.Switched = string(rest[:i])
+		var salt []byte
+		if i+1 <= len(rest) {
+			salt = append(salt, rest[i+1:]...)
+		}
+		if len(salt) > 20 {
+			salt = salt[:20]
+		}
+		var resp []byte
+		switch {
+		case o.AuthFn != nil:
+			resp = o.AuthFn(1, c.Switched, salt)
+		case c.Switched == "caching_sha2_password":
+			resp = myproto.Sha2Scramble(o.Password, salt)
+		default:
+			resp = myproto.NativeScramble(o.Password, salt)
+		}
+		if err := c.PC.WritePacket(resp); err != nil {
+			c.Dead = true
+			return c, fmt.Errorf("%w: writing auth switch response: %v", ErrTransport, err)
+		}
+		goto readReply
+	case 0x01:
+		// caching_sha2 "more data" (fast auth success): the OK or ERR follows
+		goto readReply
 	case 0x00:
 		ok, err := myproto.ParseOK(pkt)
 		if err != nil {
@@ -469,14 +520,14 @@ func (c *Client) CloseStmt(id uint32) error {
 type Value struct {
 	Null bool
 	// exactly one of the following is meaningful, according to Kind
-	Kind  string // int | uint | float | double | bytes | date | time
-	I     int64
-	U     uint64
-	F     float64
-	B     []byte
-	Date  [7]int // year month day hour minute second micro
-	Neg   bool   // time
-	Days  uint32 // time
+	Kind string // int | uint | float | double | bytes | date | time
+	I    int64
+	U    uint64
+	F    float64
+	B    []byte
+	Date [7]int // year month day hour minute second micro
+	Neg  bool   // time
+	Days uint32 // time
 }
 
 func (v Value) String() string {
